@@ -26,12 +26,12 @@ using namespace vf;
 
 enum Kind {
 	R_ADD = 1, R_ADD_DIRECT, R_REMOVE, R_RESET, R_SETTARGET, R_MOVECTOR, R_MOVEASSIGN, R_SWAP, R_DESTROY, R_NEW, R_TRIGGER, R_REMOVE_DIRECT,
-	R_ADD_COUNTER, R_ADD_COND, R_MAX
+	R_ADD_COUNTER, R_ADD_COND, R_HASANY, R_MAX
 };
 const char * kindName(int k)
 {
 	static const char * n[] = { "?", "addThroughRemover", "addDirect", "removeThroughRemover", "reset", "setTarget", "moveConstruct", "moveAssign", "swap", "destroyRemover", "newRemover",
-		"trigger", "removeDirect", "addCounter", "addConditional" };
+		"trigger", "removeDirect", "addCounter", "addConditional", "hasAnyListener" };
 	return (k > 0 && k < R_MAX) ? n[k] : "?";
 }
 
@@ -94,6 +94,7 @@ struct ITarget
 	virtual void rmMoveAssign(int dst, int src) = 0;
 	virtual void rmSwap(int a, int b) = 0;
 	virtual size_t handleCount() const = 0;
+	virtual bool hasAny(int obj, int key) = 0;
 };
 
 struct PolEx { using ArgumentPassingMode = eventpp::ArgumentPassingExcludeEvent; };
@@ -101,12 +102,16 @@ using TList = eventpp::CallbackList<void (int)>;
 using TDisp = eventpp::EventDispatcher<int, void (int), PolEx>;
 using TQueue = eventpp::EventQueue<int, void (int), PolEx>;
 // a user key type: every copy is a fault point and its move constructor may throw, so std::vector relocates it by copying
+// While a pure look-up (hasAnyListener) is the faulted operation its comparisons are fault points too: the exception of
+// the user's comparison must reach the caller. (Not during other operations: what ScopedRemover::reset / removeListener
+// owe their caller when a look-up throws half way is not something C09 states.)
+bool g_keyCompareFaults = false;
 struct FKey : LedgeredT<6, true>
 {
 	FKey(int k_ = 0) : LedgeredT<6, true>(kKeyBase + 700 + k_), k(k_) {}
 	int k;
-	friend bool operator == (const FKey & a, const FKey & b) { a.touch(); b.touch(); return a.k == b.k; }
-	friend bool operator < (const FKey & a, const FKey & b) { a.touch(); b.touch(); return a.k < b.k; }
+	friend bool operator == (const FKey & a, const FKey & b) { a.touch(); b.touch(); if(g_keyCompareFaults) faults().point(4); return a.k == b.k; }
+	friend bool operator < (const FKey & a, const FKey & b) { a.touch(); b.touch(); if(g_keyCompareFaults) faults().point(4); return a.k < b.k; }
 };
 struct PolExMap { using ArgumentPassingMode = eventpp::ArgumentPassingExcludeEvent; template <typename K, typename V> using Map = std::map<K, V>; };
 using TDispKey = eventpp::EventDispatcher<FKey, void (int), PolExMap>;
@@ -124,6 +129,7 @@ template <> struct Acc<TList> {
 	static bool remove(TList & t, int, const Handle & h) { return t.remove(h); }
 	template <typename R> static bool rremove(R & r, int, const Handle & h) { return r.remove(h); }
 	static void trigger(TList & t, int, int arg, bool) { t(arg); }
+	static bool hasAny(TList & t, int) { return ! t.empty(); }
 	template <typename F> static void each(TList & t, int, F f) { t.forEach([&](const Handle & h, const TList::Callback &) { f(h); }); }
 	template <typename R> static void setTarget(R & r, TList & t) { r.setCallbackList(t); }
 	static bool same(const Handle & a, const Handle & b) { return ! a.expired() && ! b.expired() && ! a.owner_before(b) && ! b.owner_before(a); }
@@ -138,6 +144,7 @@ template <typename D> struct AccDisp {
 	static bool remove(D & t, int k, const Handle & h) { return t.removeListener(k, h); }
 	template <typename R> static bool rremove(R & r, int k, const Handle & h) { return r.removeListener(k, h); }
 	template <typename R> static void setTarget(R & r, D & t) { r.setDispatcher(t); }
+	static bool hasAny(D & t, int k) { return t.hasAnyListener(k); }
 };
 template <> struct Acc<TDisp> : AccDisp<TDisp> {
 	static void trigger(TDisp & t, int k, int arg, bool) { t.dispatch(k, arg); }
@@ -169,6 +176,7 @@ template <> struct Acc<THList> {
 	static bool remove(THList & t, int, const Handle & h) { return t.remove(h); }
 	template <typename R> static bool rremove(R &, int, const Handle &) { return false; }
 	static void trigger(THList & t, int, int arg, bool) { t(arg); }
+	static bool hasAny(THList & t, int) { return ! t.empty(); }
 	template <typename F> static void each(THList & t, int, F f) { t.forEach<void (int)>([&](const Handle & h, const std::function<void (int)> &) { f(h); }); }
 	template <typename R> static void setTarget(R & r, THList & t) { r.setCallbackList(t); }
 	static bool same(const Handle & a, const Handle & b) { return sameHeter(a, b); }
@@ -227,6 +235,7 @@ struct Target : ITarget
 	void rmMoveAssign(int dst, int src) override { *rm[dst] = std::move(*rm[src]); }
 	void rmSwap(int a, int b) override { rm[a]->swap(*rm[b]); }
 	size_t handleCount() const override { return handles.size(); }
+	bool hasAny(int o, int k) override { return A::hasAny(objs[o], k); }
 };
 
 ITarget * makeTarget(int kind)
@@ -568,6 +577,19 @@ struct Interp
 			lib->rmSwap(s, o2);
 			break;
 		}
+		case R_HASANY: {
+			int obj = op.a & 1, key = keyOf(op.c);
+			bool expect = false;
+			if(impl->hasKeys()) expect = ! lists[obj][key].empty();
+			else for(int k = 0; k < kKeys; ++k) if(! lists[obj][k].empty()) expect = true;
+			bool anyLimbo = false;
+			for(int k = 0; k < kKeys; ++k) for(int n : lists[obj][k].nodes) if(nodes[n].inLimbo) anyLimbo = true;
+			struct Flag { Flag() { g_keyCompareFaults = true; } ~Flag() { g_keyCompareFaults = false; } } flag;
+			bool r = lib->hasAny(obj, key);
+			log << "(o" << obj << "k" << key << ")=" << r;
+			if(! anyLimbo && r != expect) fail("remover.hasAny", prop, "hasAnyListener / ! empty() returned " + std::to_string(r) + ", model says " + std::to_string(expect));
+			break;
+		}
 		case R_TRIGGER: {
 			if((int)frames.size() >= kMaxDepth || fuel <= 0) { log << "(skip)"; break; }
 			int obj = op.a & 1, key = keyOf(op.c);
@@ -795,6 +817,7 @@ Grammar makeGrammar(const std::string & prop)
 			{ R_SWAP, "swap", 5, rmv, rmv, ArgSpec(0, 0), -1, 0 },
 			{ R_DESTROY, "destroyRemover", 6, rmv, ArgSpec(0, 0), ArgSpec(0, 0), -1, 0 },
 			{ R_TRIGGER, "trigger", 8, ArgSpec(0, 1), any, ArgSpec(0, 3), -1, 0 },
+			{ R_HASANY, "hasAnyListener", 3, ArgSpec(0, 1), ArgSpec(0, 0), ArgSpec(0, 80), -1, 0 },
 		};
 	}
 	else {
